@@ -199,10 +199,12 @@ def build(desc):
         return dc.EnforceGCContent(mini=desc["mini"], maxi=desc["maxi"], location=loc)
     if k == "change_min":
         return dc.EnforceChanges(minimum=desc["minimum"], location=loc)
+    if k == "gc_obj":
+        return dc.EnforceGCContent(target=desc["target"], window=desc["window"], boost=desc.get("boost", 1))
     return problems.build_spec(desc)
 
 
-ROLE = {"change_obj": "objective", "cai": "objective", "keep_obj": "objective"}
+ROLE = {"change_obj": "objective", "cai": "objective", "keep_obj": "objective", "gc_obj": "objective"}
 
 
 def init_spec(desc, seq):
